@@ -415,7 +415,7 @@ fn c10_scenario(rng: &mut Rng) -> Scenario {
     let names = interesting_names(rng, &built.reference);
     let cfg = ServerCfg { payload: *rng.pick(&[512u16, 1232, 4096]), rrl: None, keys: gen_keys(rng, &names) };
     let server = make_server(Arc::new(built.catalog.clone()), &cfg);
-    let bufs = Buffers::new(cfg.payload);
+    let bufs = Buffers::roomy(cfg.payload, rng);
     Scenario { built, server, cfg, bufs, names, classes: vec![C_IN] }
 }
 
